@@ -165,6 +165,10 @@ def run_check(tier, seed):
         v = c12.nasty_vars(rng) if rng.random() < 0.2 else zgen.rand_vars(rng)
         k = rng.choice([1, 1, 2, 3, 5])
         atoms = [rand_atom(rng) for _ in range(k)]
+        if rng.random() < 0.15:        # a template whose own text ends like a file name: template engines pick auto-escaping from such suffixes
+            l = rng.choice([".html", ".htm", ".xml", ".HTML", "index.html", ".j2", ".txt"])
+            atoms.append((l, ["lit", hx(l)]))
+            k += 1
         tpl = "".join(t for t, _ in atoms)
         toks = " ".join(" ".join(a) for _, a in atoms)
         cases.append(f"TPL {hx(tpl)} {zgen.enc_zerv(s, v)} T {k} {toks}")
